@@ -115,6 +115,23 @@ def zeroExcused (t : Ty) : Bool :=
   | .int | .uint | .float | .dur | .ptrfloat | .ptrint => true
   | _ => false
 
+/-! ## a whole Manager file with parts the Manager does not know
+
+"Reproduced exactly by saving and loading it again, no setting silently dropped": what the loader accepted is a
+fixpoint of save → load (`fix`); "the displayable form never contains the cluster secret, private keys or API
+credentials": nothing secret of the saved form occurs in it (`leak`), every hidden key shows the mask (`masked`). -/
+structure MgrObs where
+  res : String
+  fix : Bool
+  leak : Bool
+  masked : Bool
+  deriving Repr
+
+def mgrClauses (o : MgrObs) : List (String × Bool) :=
+  [ ("no_crash", o.res != "panic"),
+    ("roundtrip", o.res != "ok" || o.fix),
+    ("no_secret_leak", o.res != "ok" || (!o.leak && o.masked)) ]
+
 /-! ## the remote `source` setting of a full configuration (config.Manager)
 
 A configuration that declares `"source": url` is a well-formed configuration the loader accepts (when the
